@@ -557,9 +557,23 @@ Definition xls_parse_formula (data : list N) : outcome (list N) :=
 (* ================================================================== xlsb ========== *)
 Record xlsb_env := {
   be_sheets : list (list N);            (* extern_sheets: one resolved name per XTI *)
-  be_names : list (list N)
+  be_names : list (list N);
+  be_base : option (N * N)              (* base: Option<(u32, u32)> — the cell using a shared formula
+                                           (row, column); None for a cell's own formula and for names *)
 }.
 Variable benv : xlsb_env.
+
+(*  fn rel_ref(row: u32, col: u16, base: (u32, u32)) -> (u32, u16) {
+      let row = if col & 0x8000 != 0 { row.wrapping_add(base.0) & 0x000F_FFFF } else { row };
+      let c = if col & 0x4000 != 0 { col.wrapping_add(base.1 as u16) & 0x3FFF } else { col & 0x3FFF };
+      (row, col & 0xC000 | c) }
+    (commit "fix: xlsb cells of shared and array formulas were reported without their formula")
+    wrapping u32 / u16 additions written as sums modulo 2^32 / 2^16, [base.1 as u16] as mod 2^16,
+    [& 0xFFFFF] / [& 0x3FFF] as mod 2^20 / 2^14; [col & 0xC000 | c] is Col26.col_field *)
+Definition rel_ref_b (row col : N) (base : N * N) : N * N :=
+  let row' := if bit15 col then ((row + fst base) mod 4294967296) mod 1048576 else row in
+  let c := if bit14 col then ((col + snd base mod 65536) mod 65536) mod 16384 else N.land col 16383 in
+  (row', col_field c (bit15 col) (bit14 col)).
 
 (* sheets.get(ixti as usize).map_or("#REF", |sh| sh) *)
 Definition sheet_name_xlsb (ixti : N) : outcome (list N) :=
@@ -594,7 +608,8 @@ Definition xlsb_attr (rgce : list N) (s : pstate) : outcome (list N * pstate) :=
   | _ => Err E_ETPG
   end.
 
-(* [sub] is the recursive call parse_formula(&rgce[..cce], sheets, names) of PtgMemFunc *)
+(* [sub] is the recursive call parse_formula_nested(&rgce[..cce], sheets, names, base, depth + 1) of
+   PtgMemFunc (same base) *)
 Definition xlsb_step (sub : list N -> outcome (list N)) (ptg : N) (rgce : list N) (s : pstate)
   : outcome (list N * pstate) :=
   let st := fst s in let buf := snd s in
@@ -687,6 +702,32 @@ Definition xlsb_step (sub : list N -> outcome (list N)) (ptg : N) (rgce : list N
       Ok (r, (length buf :: st, b2))
   | 0x2A | 0x4A | 0x6A => arm_push_text (lit "#REF!") 6 rgce s
   | 0x2B | 0x4B | 0x6B => arm_push_text (lit "#REF!") 12 rgce s
+  | 0x2C | 0x4C | 0x6C =>                                            (* PtgRefN *)
+      (* let base = base.ok_or(XlsbError::Ptg(ptg))?;
+         let (row, col) = rel_ref(read_u32(rgce), read_u16(&rgce[4..6]), base); push_cell_ref(row, col) *)
+      match be_base benv with
+      | None => Err E_UNRECOGNIZED
+      | Some base =>
+          do rw <- u32_at rgce 0;
+          do cl <- u16_at rgce 4;
+          let rc := rel_ref_b rw cl base in
+          do b <- push_cell_ref (fst rc) (snd rc) buf;
+          do r <- drop 6 rgce;
+          Ok (r, (length buf :: st, b))
+      end
+  | 0x2D | 0x4D | 0x6D =>                                            (* PtgAreaN *)
+      match be_base benv with
+      | None => Err E_UNRECOGNIZED
+      | Some base =>
+          do r1 <- u32_at rgce 0; do c1 <- u16_at rgce 8;
+          let rc1 := rel_ref_b r1 c1 base in
+          do r2 <- u32_at rgce 4; do c2 <- u16_at rgce 10;
+          let rc2 := rel_ref_b r2 c2 base in
+          do b1 <- push_cell_ref (fst rc1) (snd rc1) buf;
+          do b2 <- push_cell_ref (fst rc2) (snd rc2) (b1 ++ [ch_colon]);
+          do r <- drop 12 rgce;
+          Ok (r, (length buf :: st, b2))
+      end
   | 0x29 | 0x49 | 0x69 =>                                            (* PtgMemFunc *)
       do cce <- u16_at rgce 0;
       do r2 <- drop 2 rgce;
@@ -715,8 +756,8 @@ Definition xlsb_expected (ptg : N) : nat :=
   | 0x18 | 0x19 | 0x1C | 0x1D => 1%nat
   | 0x1F => 8%nat
   | 0x22 | 0x42 | 0x62 => 3%nat
-  | 0x24 | 0x44 | 0x64 | 0x2A | 0x4A | 0x6A | 0x39 | 0x59 | 0x79 => 6%nat
-  | 0x25 | 0x45 | 0x65 | 0x2B | 0x4B | 0x6B => 12%nat
+  | 0x24 | 0x44 | 0x64 | 0x2A | 0x4A | 0x6A | 0x39 | 0x59 | 0x79 | 0x2C | 0x4C | 0x6C => 6%nat
+  | 0x25 | 0x45 | 0x65 | 0x2B | 0x4B | 0x6B | 0x2D | 0x4D | 0x6D => 12%nat
   | _ => 0%nat
   end.
 
@@ -785,8 +826,9 @@ Inductive expr :=
                                                   table offs) in front of a *)
 (* references of a SHARED formula (PtgRefN / PtgAreaN, MS-XLS 2.5.198.84 / .28; RgceLocRel): a
    relative component holds an OFFSET from the cell that uses the formula, as the two's-complement
-   field the format stores (rows: 16 bits; columns: the low 8 bits of the 14-bit field count, xls
-   sheets have 256 columns), an absolute component the row / column itself *)
+   field the format stores (xls — rows: 16 bits; columns: the low 8 bits of the 14-bit field count, xls
+   sheets have 256 columns; xlsb — rows: 32 bits, columns: 14 bits), an absolute component the row /
+   column itself *)
 | ERefN (k : cls) (a : cref)
 | EAreaN (k : cls) (a b : cref).
 
@@ -838,6 +880,17 @@ Definition translate (base : option (N * N)) (a : cref) : cref :=
   | Some (br, bc) =>
       {| cr_row := if cr_row_rel a then (br + cr_row a) mod 65536 else cr_row a;
          cr_col := if cr_col_rel a then (bc + cr_col a) mod 256 else cr_col a;
+         cr_row_rel := cr_row_rel a; cr_col_rel := cr_col_rel a |}
+  end.
+
+(* the same for xlsb (MS-XLSB RgceLocRel): the sheet has 1048576 rows and 16384 columns; a relative
+   row is stored as the 32-bit two's complement of its offset, a relative column as the 14-bit one *)
+Definition translate_b (base : option (N * N)) (a : cref) : cref :=
+  match base with
+  | None => a
+  | Some (br, bc) =>
+      {| cr_row := if cr_row_rel a then (br + cr_row a) mod 1048576 else cr_row a;
+         cr_col := if cr_col_rel a then (bc + cr_col a) mod 16384 else cr_col a;
          cr_row_rel := cr_row_rel a; cr_col_rel := cr_col_rel a |}
   end.
 
@@ -906,7 +959,7 @@ Definition spec_sheet_xlsb (env : xlsb_env) (ixti : N) : list N :=
 Definition render_xls (show_f64 : N -> list N) (env : xls_env) : expr -> list N :=
   render show_f64 (spec_sheet_xls env) (spec_name (xe_names env)) (translate (xe_base env)).
 Definition render_xlsb (show_f64 : N -> list N) (env : xlsb_env) : expr -> list N :=
-  render show_f64 (spec_sheet_xlsb env) (spec_name (be_names env)) (translate None).
+  render show_f64 (spec_sheet_xlsb env) (spec_name (be_names env)) (translate_b (be_base env)).
 
 (* ---------- encoders ---------- *)
 Definition unop_ptg (op : unop) : N := match op with UPlus => 0x12 | UMinus => 0x13 | UPercent => 0x14 end.
@@ -1043,7 +1096,8 @@ Definition wf_xls (env : xls_env) : expr -> bool :=
   wf 65536 (fun _ => true) (length (xe_names env)) wf_str_xls
      (match xe_base env with Some _ => true | None => false end).
 Definition wf_xlsb (env : xlsb_env) : expr -> bool :=
-  wf 4294967296 (fun ix => ix <? N.of_nat (length (be_sheets env))) (length (be_names env)) wf_str_xlsb false.
+  wf 4294967296 (fun ix => ix <? N.of_nat (length (be_sheets env))) (length (be_names env)) wf_str_xlsb
+     (match be_base env with Some _ => true | None => false end).
 
 (* Known classes: none left.  K_STR_WIDE (F21) was repaired by commit a3d91ee and K_STR_QUOTE by
    6ef7f34; their witnesses are corpus cases of tools/props/c14.py that must satisfy the spec. *)
